@@ -1,3 +1,4 @@
+import ShkModel.Model.Collect
 import ShkModel.Lemmas.Spot
 import ShkModel.Lemmas.AudObs
 import ShkModel.Lemmas.Pipeline
@@ -603,5 +604,112 @@ example : rowsFor ⟨"bob", "d"⟩ (run exCfg (pipeEvs 1577836800 exSigs exSink 
 
 example : rowsOf 0 ⟨"n", "v", .scalar, .now⟩ 0 [(100, "v=3".toList), (101, "v=x".toList), (102, "v=4".toList)]
     = [(100, .num 3), (102, .num 4)] := by decide +kernel
+
+/-! ## one row per watching observer -/
+
+section fanout
+open Shk.Collect
+
+private theorem filter_name_unique (l : List Member) (hnd : (l.map (·.name)).Nodup) (m : Member) (hm : m ∈ l) :
+    l.filter (fun m' => m'.name == m.name) = [m] := by
+  induction l with
+  | nil => cases hm
+  | cons x xs ih =>
+    simp only [List.map_cons, List.nodup_cons] at hnd
+    obtain ⟨hx, hxs⟩ := hnd
+    simp only [List.mem_cons] at hm
+    rcases hm with rfl | hm
+    · have : xs.filter (fun m' => m'.name == m.name) = [] := by
+        rw [List.filter_eq_nil_iff]
+        intro y hy hyn
+        exact hx (List.mem_map.mpr ⟨y, hy, by simpa using hyn⟩)
+      simp [List.filter_cons, this]
+    · have hne : (x.name == m.name) = false := by
+        cases h : x.name == m.name
+        · rfl
+        · exact absurd (List.mem_map.mpr ⟨m, hm, (by simpa using h : x.name = m.name).symm⟩) hx
+      simp [List.filter_cons, hne, ih hxs hm]
+
+private theorem watchers_nodup (c : Cfg) (hnd : (c.members.map (·.name)).Nodup) (v : VarName) :
+    ((c.watchers v).map (·.name)).Nodup := by
+  unfold Cfg.watchers
+  exact List.Nodup.sublist (List.Sublist.map _ List.filter_sublist) hnd
+
+private theorem file_append (a b : List Row) (o ac sg : String) :
+    file (a ++ b) o ac sg = file a o ac sg ++ file b o ac sg := by
+  simp [file, List.filter_append]
+
+/-- **Exactly one data point per watching observer**: for every stream of forwarded
+observations, every audience member `m` that watches the variable `v` (names it in a `watches`
+clause or in one of its expressions), provided member names are distinct, finds in its file
+`<m>.<actor>.<signal>.csv` exactly the observations of `v`, once each, in order. -/
+theorem rows_per_observer (c : Cfg) (hnd : (c.members.map (·.name)).Nodup) (outs : List Out)
+    (m : Member) (hm : m ∈ c.members) (v : VarName) (hw : m.mentions.contains v = true) :
+    file (collectAll c outs) m.name v.actor v.sig = obsOf v outs := by
+  have hmw : m ∈ c.watchers v := by
+    unfold Cfg.watchers; exact List.mem_filter.mpr ⟨hm, hw⟩
+  induction outs with
+  | nil => rfl
+  | cons o os ih =>
+    simp only [collectAll, List.flatMap_cons] at ih ⊢
+    rw [file_append, ih]
+    cases o with
+    | obs ts typ w val =>
+      by_cases hwv : w = v
+      · subst hwv
+        have h1 := filter_name_unique (c.watchers w) (watchers_nodup c hnd w) m hmw
+        simp only [rowsOfObs, file, obsOf, List.filterMap_cons, if_true]
+        rw [List.filter_map]
+        have : (c.watchers w).filter ((fun r : Row => r.observer == m.name && r.actor == w.actor && r.sig == w.sig) ∘
+            fun m' => (⟨m'.name, w.actor, w.sig, ts, typ, val⟩ : Row)) = [m] := by
+          rw [← h1]; apply List.filter_congr; intro x _; simp
+        rw [this]; rfl
+      · have hne : (w.actor == v.actor && w.sig == v.sig) = false := by
+          cases h : (w.actor == v.actor && w.sig == v.sig)
+          · rfl
+          · simp only [Bool.and_eq_true, beq_iff_eq] at h
+            exact absurd (by cases w; cases v; simp_all) hwv
+        simp only [rowsOfObs, file, obsOf, List.filterMap_cons, hwv, if_false]
+        rw [List.filter_map]
+        have : (c.watchers w).filter ((fun r : Row => r.observer == m.name && r.actor == v.actor && r.sig == v.sig) ∘
+            fun m' => (⟨m'.name, w.actor, w.sig, ts, typ, val⟩ : Row)) = [] := by
+          rw [List.filter_eq_nil_iff]; intro x _
+          simp only [Function.comp, Bool.and_assoc]
+          simp [hne]
+        rw [this]; rfl
+    | rep _ _ _ _ => simp [rowsOfObs, file, obsOf]
+    | repErr _ _ => simp [rowsOfObs, file, obsOf]
+    | start _ => simp [rowsOfObs, file, obsOf]
+    | stop _ => simp [rowsOfObs, file, obsOf]
+
+/-- and an audience member that does not watch the variable gets no row for it -/
+theorem no_row_for_non_watcher (c : Cfg) (outs : List Out) (name : String) (v : VarName)
+    (h : ∀ m ∈ c.members, m.name = name → m.mentions.contains v = false) :
+    file (collectAll c outs) name v.actor v.sig = [] := by
+  induction outs with
+  | nil => rfl
+  | cons o os ih =>
+    simp only [collectAll, List.flatMap_cons] at ih ⊢
+    rw [file_append, ih, List.append_nil]
+    cases o with
+    | obs ts typ w val =>
+      simp only [rowsOfObs, file]
+      rw [List.filter_map, List.map_eq_nil_iff, List.map_eq_nil_iff, List.filter_eq_nil_iff]
+      intro x hx
+      simp only [Function.comp, Bool.and_eq_true, beq_iff_eq, not_and]
+      intro hn hs
+      obtain ⟨hn, ha⟩ := hn
+      have hwv : w = v := by cases w; cases v; simp_all
+      subst hwv
+      have := List.mem_filter.mp (by simpa [Cfg.watchers] using hx : x ∈ c.members.filter (·.mentions.contains w))
+      have hc := h x this.1 hn
+      have h2 : x.mentions.contains w = true := by simpa using this.2
+      rw [hc] at h2; cases h2
+    | rep _ _ _ _ => simp [rowsOfObs, file]
+    | repErr _ _ => simp [rowsOfObs, file]
+    | start _ => simp [rowsOfObs, file]
+    | stop _ => simp [rowsOfObs, file]
+
+end fanout
 
 end Shk.C08
